@@ -1,15 +1,27 @@
 #!/bin/bash
 # trymutant.sh <patch.diff> <budget_sec> <prop> [prop...]
 # Applies a seeded change to /repo, runs the given quick checks, and always reverts.
+# If the meta.json beside the patch names a base_commit (a bundle that no longer
+# applies to the current tree), the change is applied to a scratch worktree at
+# that commit instead and the checks run against it (VERIF_REPO).
 patch=$1; budget=$2; shift 2
-cd /repo || exit 2
-if ! git diff --quiet; then echo "/repo has uncommitted changes"; exit 2; fi
-git apply "$patch" || { echo "patch does not apply"; exit 2; }
-trap 'git -C /repo checkout -- . ; git -C /repo clean -fdq -- . >/dev/null 2>&1; git -C /verif checkout -- evidence' EXIT
+base=$(python3 -c "import json,os,sys;p=os.path.join(os.path.dirname('$patch'),'meta.json');print(json.load(open(p)).get('base_commit','') if os.path.exists(p) else '')" 2>/dev/null)
+if [ -n "$base" ]; then
+  wt=/tmp/wt/base-$$
+  git -C /repo worktree add -q --detach $wt $base || exit 2
+  trap 'git -C /repo worktree remove --force '$wt' >/dev/null 2>&1; git -C /verif checkout -- evidence' EXIT
+  (cd $wt && git apply "$patch") || { echo "patch does not apply to $base"; exit 2; }
+  export VERIF_REPO=$wt
+else
+  cd /repo || exit 2
+  if ! git diff --quiet; then echo "/repo has uncommitted changes"; exit 2; fi
+  git apply "$patch" || { echo "patch does not apply"; exit 2; }
+  trap 'git -C /repo checkout -- . ; git -C /repo clean -fdq -- . >/dev/null 2>&1; git -C /verif checkout -- evidence' EXIT
+fi
 cd /verif
 for p in "$@"; do
   out=$(SIM_BUDGET_SEC=$budget ./run.sh $p quick 2>&1)
   rc=$?
   echo "== $p rc=$rc"
-  echo "$out" | grep -E "^violation|^VIOLATION|HARNESS|^C[0-9]+ quick" | cut -c1-260 | head -8
+  echo "$out" | grep -E "^violation|^VIOLATION|HARNESS|^NOTE|^C[0-9]+ quick" | cut -c1-260 | head -8
 done
